@@ -105,7 +105,7 @@ func runFork(line string) (*forkOutcome, error) {
 	if err != nil {
 		return nil, err
 	}
-	work, err := w.kit.Begin(cb0)
+	work, err := beginWork(w.kit.A, w.kit.Signer, cb0)
 	if err != nil {
 		return nil, err
 	}
@@ -118,7 +118,7 @@ func runFork(line string) (*forkOutcome, error) {
 	}
 	A.Staking.VerifC06SetEvidences(nil)
 	A.Staking.VerifC06AddEvidence(ev)
-	blkA, err := work.Finish(nil)
+	blkA, err := work.finish(nil)
 	if err != nil || blkA.Block == nil {
 		return nil, fmt.Errorf("evidence block: %v %s", err, blkA.Panic)
 	}
